@@ -159,7 +159,22 @@ def rule_N2(ctx: Ctx) -> None:
     ctx.judge(ga, ok, {"call": X.U(call[0]) if call else None}, "get_all_tokenizers = all_instances(MazeTokenizerModular, validation_funcs=<the default map>)")
     # the _type_ hack adds a singleton field: annotation Literal[repr(cls)] with that default (does not multiply the space)
     isc = ctx.index.func(f"{ELEMENT}.__init_subclass__")
-    txt = X.U(isc.node)
+    # locals bound once (a name for the repeated repr(cls)) are written back into their uses before the three statements are compared
+    import copy as _copy
+
+    node_ = _copy.deepcopy(isc.node)
+    once = {}
+    for st_ in node_.body:
+        if isinstance(st_, (ast.Assign, ast.AnnAssign)) and getattr(st_, "value", None) is not None:
+            tg_ = st_.targets[0] if isinstance(st_, ast.Assign) and len(st_.targets) == 1 else (st_.target if isinstance(st_, ast.AnnAssign) else None)
+            if isinstance(tg_, ast.Name):
+                once[tg_.id] = None if tg_.id in once else st_.value
+    once = {k_: v_ for k_, v_ in once.items() if v_ is not None}
+
+    class _Sub(ast.NodeTransformer):
+        def visit_Name(self, n_):
+            return _copy.deepcopy(once[n_.id]) if isinstance(n_.ctx, ast.Load) and n_.id in once else n_
+    txt = X.U(_Sub().visit(node_))
     ok = "cls._type_ = serializable_field(" in txt and "default=repr(cls)" in txt and "cls.__annotations__['_type_'] = Literal[repr(cls)]" in txt
     ctx.judge(isc, ok, {}, "the hidden `_type_` field is a singleton Literal[repr(cls)] (one value: it cannot multiply or shrink the space)")
     # structure of all_instances itself
